@@ -128,3 +128,83 @@ def adjacency_scripts():
             steps.append(('parse', src, {}))
         out.append(dict(name='adjacent_%d%s_%d%s' % (pa, aa, pb, ab), steps=steps, expect=[None, None] + [('table',)] * 8, table={'lowA': (pa, aa, 'CALC'), 'highA': (pb, ab, 'CALC')}))
     return out
+
+# ------------------------------------------------------------------------------------------------ random generation (seeded)
+_INFIX_ALL = ['=', '+=', '-=', '*=', '%=', '<<=', '&=', '||', '&&', '<', '<=', '>', '>=', '==', '!=', '|', '^', '&', '<<', '>>', '+', '-', '*', '/', '%', 'beginWith', 'endWith', 'in']
+def gen_expr(rnd, depth, names=('a', 'b', 'c', 'x', 'y')):
+    """a random well-formed expression (source text); shape is random, spacing is random"""
+    def sp(): return rnd.choice(['', ' ', ' ', '  ', '\t'])
+    def atom():
+        r = rnd.random()
+        if r < 0.25: return rnd.choice(['0', '1', '2', '7', '10', '2.5', '0.50', '100'])
+        if r < 0.45: return rnd.choice(names)
+        if r < 0.55: return rnd.choice(['true', 'false', 'True', 'False'])
+        if r < 0.65: return rnd.choice(["'s'", '"t"', "''", "'a b'", "'é'"])
+        if r < 0.75 and depth > 0: return 'f(' + ', '.join(gen_expr(rnd, depth - 1) for _ in range(rnd.randint(0, 3))) + ')'
+        if r < 0.85 and depth > 0: return '[' + ','.join(gen_expr(rnd, depth - 1) for _ in range(rnd.randint(0, 3))) + rnd.choice(['', '', ',']) * (1 if rnd.random() < 0.3 else 0) + ']'
+        if r < 0.90 and depth > 0: return '{' + ','.join(gen_expr(rnd, depth - 1) + ':' + gen_expr(rnd, depth - 1) for _ in range(rnd.randint(0, 2))) + '}'
+        if depth > 0: return '(' + sp() + gen_expr(rnd, depth - 1) + sp() + ')'
+        return rnd.choice(names)
+    def primary():
+        r = rnd.random()
+        if r < 0.12 and depth > 0: return rnd.choice(['-', '+', '!', 'not ', 'AND ', 'OR ']) + sp() + primary()
+        a = atom()
+        if rnd.random() < 0.08: a = a + sp() + rnd.choice(['++', '--'])
+        return a
+    if depth <= 0: return primary()
+    r = rnd.random()
+    if r < 0.15:
+        return gen_expr(rnd, depth - 1) + ' ? ' + gen_expr(rnd, depth - 1) + ' : ' + gen_expr(rnd, depth - 1)
+    n = rnd.randint(0, 3)
+    s = primary()
+    for _ in range(n):
+        op = rnd.choice(_INFIX_ALL)
+        neg = 'not ' if rnd.random() < 0.08 else ''
+        wordy = op[0].isalpha()
+        l = ' ' if (wordy or neg or rnd.random() < 0.7) else ''
+        s = s + l + neg + op + (' ' if wordy else sp()) + (gen_expr(rnd, depth - 1) if rnd.random() < 0.3 else primary())
+    return s
+
+def random_parse_cases(seed, n=1500):
+    rnd = random.Random(seed * 7919 + 13)
+    out = []
+    for _ in range(n):
+        k = rnd.randint(1, 3)
+        stmts = [gen_expr(rnd, rnd.randint(0, 3)) for _ in range(k)]
+        out.append(rnd.choice([';', '; ', ' ', ';\n']).join(stmts) + rnd.choice(['', '', ';']))
+    # corruptions of random valid programs
+    base = out[:300]
+    out += corrupt(base, rnd, 700)
+    return out
+
+_VALS = ['0', '1', '2', '3', '-4', '2.5', '0.1', '1.10', '7', 'true', 'false', "'ab'", "'a'", "''", '[1, 2]', '[]', '[true, false]', 'nope', 'one()', 'two()', 't()', 'f()']
+def gen_val_expr(rnd, depth):
+    if depth <= 0 or rnd.random() < 0.3:
+        v = rnd.choice(_VALS)
+        return '(%s)' % v if v.startswith('-') else v
+    r = rnd.random()
+    if r < 0.1: return '(%s ? %s : %s)' % (gen_val_expr(rnd, depth - 1), gen_val_expr(rnd, depth - 1), gen_val_expr(rnd, depth - 1))
+    if r < 0.2: return rnd.choice(['-', '!', 'not ', '+']) + '(%s)' % gen_val_expr(rnd, depth - 1)
+    if r < 0.28: return rnd.choice(['min', 'max', 'sum', 'mul', 'cnt', 'id']) + '(' + ', '.join(gen_val_expr(rnd, depth - 1) for _ in range(rnd.randint(0, 3))) + ')'
+    if r < 0.34: return '[' + ', '.join(gen_val_expr(rnd, depth - 1) for _ in range(rnd.randint(0, 3))) + ']'
+    if r < 0.38: return rnd.choice(['AND ', 'OR ']) + '[' + ', '.join(gen_val_expr(rnd, depth - 1) for _ in range(rnd.randint(0, 3))) + ']'
+    op = rnd.choice(['+', '-', '*', '%', '/', '<', '<=', '>', '>=', '==', '!=', '&&', '||', '|', '^', '&', '<<', '>>', 'in', 'beginWith', 'endWith'])
+    return '(%s %s %s)' % (gen_val_expr(rnd, depth - 1), op, gen_val_expr(rnd, depth - 1))
+
+def random_exec_cases(seed, n=1500):
+    rnd = random.Random(seed * 104729 + 7)
+    out = []
+    for _ in range(n):
+        if rnd.random() < 0.35:
+            # a small program with assignments
+            names = ['x', 'y', 'z']
+            st = []
+            for _ in range(rnd.randint(1, 4)):
+                nm = rnd.choice(names)
+                op = rnd.choice(['=', '=', '+=', '-=', '*=', '%=', '|=', '&=', '^=', '<<=', '>>='])
+                st.append('%s %s %s' % (nm, op, gen_val_expr(rnd, 1).replace('nope', rnd.choice(names))))
+            st.append(rnd.choice(['[x, y, z]', 'x', 'x + y']))
+            out.append('; '.join(st))
+        else:
+            out.append(gen_val_expr(rnd, rnd.randint(1, 3)))
+    return out
